@@ -465,10 +465,13 @@ def minkowski_rules(db, chk, cfg, rule="MINK"):
     for q, want_sum in (("MinkowskiSum", "true"), ("MinkowskiDiff", "false")):
         for fn in db.find(q):
             calls = [x for x in walk(fn.body) if x.get("kind") == "CallExpr" and db.callee(x)[0] == "Minkowski"]
-            unions = [x for x in walk(fn.body) if x.get("kind") == "CallExpr" and db.callee(x)[0] == "Union"]
+            # the union: the helper detail::Union (judged below), or a clipper executed in place with ClipType::Union
+            unions = [x for x in walk(fn.body) if (x.get("kind") == "CallExpr" and db.callee(x)[0] == "Union") or
+                      (x.get("kind") == "CXXMemberCallExpr" and db.callee(x)[0] == "Execute" and len(db.call_args(x)) >= 3)]
+            bad_ct = [x for x in unions if x.get("kind") == "CXXMemberCallExpr" and canon(db.call_args(x)[0]).split("::")[-1] != "Union"]
             closed_nm = fn.params[2]["name"] if len(fn.params) >= 3 else "isClosed"
-            ok = len(calls) == 1 and canon(db.call_args(calls[0])[2]) == want_sum and len(unions) == 1 and canon(db.call_args(unions[0])[1]) == "NonZero" \
-                and canon(db.call_args(calls[0])[3]) == closed_nm
+            ok = len(calls) == 1 and canon(db.call_args(calls[0])[2]) == want_sum and len(unions) == 1 and not bad_ct and \
+                canon(db.call_args(unions[0])[1]).split("::")[-1] == "NonZero" and canon(db.call_args(calls[0])[3]) == closed_nm
             if not calls:
                 # an overload may delegate to another overload of the *same* operation (itself judged here), handing on its operands
                 # in their roles and the caller's isClosed; a further union must still be NonZero
@@ -498,6 +501,17 @@ def minkowski_rules(db, chk, cfg, rule="MINK"):
             if not ok:
                 chk.violation(rule + ".union", fn.qual, fn.sig[:30], "%s must return Union(Minkowski(pattern, path, %s, isClosed), NonZero)" % (q, want_sum),
                               fn.where, cfg=cfg)
+    # the helper itself: a Union of its first parameter under its fill-rule parameter
+    for hu in [g for g in db.find("detail::Union") if g.body is not None] if any(g.qual == "detail::Union" for g in db.funcs) else []:
+        ex = [x for x in walk(hu.body) if x.get("kind") == "CXXMemberCallExpr" and db.callee(x)[0] == "Execute"]
+        adds = [x for x in walk(hu.body) if x.get("kind") == "CXXMemberCallExpr" and db.callee(x)[0] in ("AddSubject", "AddClip", "AddOpenSubject")]
+        ok = len(ex) == 1 and len(hu.params) == 2 and canon(db.call_args(ex[0])[0]).split("::")[-1] == "Union" and \
+            canon(db.call_args(ex[0])[1]) == hu.params[1]["name"] and len(adds) == 1 and db.callee(adds[0])[0] == "AddSubject" and \
+            canon(db.call_args(adds[0])[0]) == hu.params[0]["name"]
+        n += 1
+        chk.instance(rule + ".union", {"function": hu.qual, "obligation": "Execute(ClipType::Union, <its fill rule>) on AddSubject(<its paths>)", "cfg": cfg}, ok=ok)
+        if not ok:
+            chk.violation(rule + ".union", hu.qual, "helper", "detail::Union must add its paths as subjects and execute ClipType::Union with the fill rule it was given", hu.where, cfg=cfg)
     # (g) roles: the pattern is always a closed outline, isClosed speaks about the path.  Every call of detail::Minkowski - from the
     # public functions and from itself - must hand the caller's pattern to the pattern slot and the caller's path to the path slot
     # (a swap is only the same region for the sum of two closed outlines: both flags literally true).
@@ -585,4 +599,87 @@ def group_strip_rule(db, chk, cfg, rule="GROUP.strip-closed"):
             if got != want:
                 chk.violation(rule, f.qual, name, "for EndType::%s the group %s a closing vertex equal to the first one; it must be stripped exactly for "
                               "the closed end types Polygon and Joined" % (name, "strips" if got else "keeps"), where(c), cfg=cfg)
+    return n
+
+
+# ---------------------------------------------------------------------------
+# JOIN.dispatch: which join construction a convex vertex gets (C06, C07)
+# ---------------------------------------------------------------------------
+
+def join_dispatch_table(db, chk, cfg, rule="JOIN.dispatch"):
+    """ClipperOffset::OffsetPoint, the part after the negligible-delta return, interpreted on convex vertices (sin_a * delta > 0) well
+    away from the straight and the reversed configuration, for every JoinType, either sign of delta and miter limits on both sides of
+    the vertex's miter length:  Miter -> DoMiter(path, j, k, cos_a) iff 1 + cos_a > temp_lim_ (= 2 / limit^2; miter length
+    sqrt(2 / (1 + cos_a)) within the limit), else DoSquare;  Round -> DoRound(path, j, k, atan2(sin_a, cos_a));  Bevel -> DoBevel;
+    Square -> DoSquare - each with (path, j, k) in that order.  (Concave and nearly straight vertices are not judged: the property
+    does not prescribe their construction.)"""
+    import math
+    f = db.one("ClipperOffset::OffsetPoint")
+    jts = db.enum("JoinType")
+    if set(jts) != {"Square", "Bevel", "Round", "Miter"}:
+        raise AnalysisBroken("enum JoinType is no longer {Square, Bevel, Round, Miter}: %s" % (jts,))
+    HELPERS = ("DoMiter", "DoSquare", "DoRound", "DoBevel")
+    top = [s for s in kids(f.body) if isinstance(s, dict) and s.get("kind") == "IfStmt"]
+    disp = [s for s in top if any(y.get("kind") in ("CXXMemberCallExpr", "CallExpr") and db.callee(y)[0] in HELPERS for y in walk(s))]
+    if len(disp) != 1:
+        raise AnalysisBroken("OffsetPoint: expected one top-level statement dispatching to DoMiter/DoSquare/DoRound/DoBevel, found %d" % len(disp))
+    n = 0
+    pnames = [p.get("name") for p in f.params]
+    for ji, jt in enumerate(jts):
+        for cos_a in (-0.8, 0.0, 0.8):
+            for delta in (5.0, -5.0):
+                for temp_lim in (2.0, 0.5, 0.05):
+                    sin_a = math.sqrt(1 - cos_a * cos_a) * (1 if delta > 0 else -1)        # convex: sin_a * delta > 0
+                    calls = []
+
+                    def hook(name, argv, nd):
+                        if name in HELPERS:
+                            a = db.call_args(nd)
+                            vals = [canon(a[0]), canon(a[1]), canon(a[2])]
+                            extra = None
+                            if len(a) > 3:
+                                try:
+                                    extra = it.ev(a[3])
+                                except Unsupported:
+                                    extra = canon(a[3])
+                            calls.append((name, tuple(vals), extra))
+                            return None
+                        if name == "atan2" and argv is not None:
+                            return math.atan2(argv[0], argv[1])
+                        if name in ("emplace_back", "push_back"):
+                            calls.append(("emplace", canon(nd)[:60], None))
+                            return None
+                        if name in ("GetPerpendic", "GetPerpendicD"):
+                            return None
+                        if name in ("fabs", "abs") and argv is not None:
+                            return abs(argv[0])
+                        return NotImplemented
+                    it = Interp(db, {"join_type_": ji, "cos_a": cos_a, "sin_a": sin_a, "group_delta_": delta, "temp_lim_": temp_lim,
+                                     "deltaCallback64_": False, "floating_point_tolerance": 1e-12}, call_hook=hook)
+                    try:
+                        it.exec(disp[0])
+                    except Unsupported as e:
+                        raise AnalysisBroken("cannot interpret the join dispatch of OffsetPoint: %s" % e)
+                    except _Return:
+                        pass
+                    if jt == "Miter":
+                        want = ("DoMiter" if 1 + cos_a > temp_lim else "DoSquare")
+                    else:
+                        want = {"Round": "DoRound", "Bevel": "DoBevel", "Square": "DoSquare"}[jt]
+                    ok = len(calls) == 1 and calls[0][0] == want and calls[0][1] == (pnames[1], pnames[2], pnames[3])
+                    if ok and want == "DoMiter":
+                        ok = calls[0][2] == cos_a
+                    if ok and want == "DoRound":
+                        ok = isinstance(calls[0][2], float) and abs(calls[0][2] - math.atan2(sin_a, cos_a)) < 1e-12
+                    n += 1
+                    chk.instance(rule, {"join": jt, "cos_a": cos_a, "delta": delta, "temp_lim_": temp_lim, "calls": [c[0] for c in calls], "cfg": cfg}
+                                 if n % 7 == 1 or not ok else None, ok=ok)
+                    if not ok:
+                        chk.violation(rule, f.qual, "%s/cos%s/d%s/lim%s" % (jt, cos_a, delta, temp_lim),
+                                      "convex vertex, JoinType::%s, cos_a=%s, sin_a=%.3f, delta=%s, temp_lim_=%s (miter length %.3f, limit %.3f): OffsetPoint makes %s; "
+                                      "it must make exactly %s(path, j, k%s)" % (jt, cos_a, sin_a, delta, temp_lim, math.sqrt(2 / (1 + cos_a)), math.sqrt(2 / temp_lim),
+                                                                                [(c[0], c[1], c[2]) for c in calls] or "nothing", want,
+                                                                                ", cos_a" if want == "DoMiter" else (", atan2(sin_a, cos_a)" if want == "DoRound" else "")),
+                                      where(disp[0]), cfg=cfg)
+                        return n
     return n
